@@ -1,9 +1,185 @@
 //! Closed, reviewed vocabulary of known-finding patterns for the verdict properties.
-//! A pattern is a structural predicate over the generator's term, the document and
-//! the direction of the wrong behaviour. Ids must be listed (status open) in
-//! /verif/known_findings.jsonl to suppress anything.
-use crate::c01::Case;
+//! A pattern is *semantic*, not textual: a violating state is attributed to a finding
+//! only if (a) observed/expected have the recorded direction, (b) the generator's term
+//! contains the defective construct, and (c) a rewrite of the term that mimics exactly
+//! the recorded wrong behaviour explains the observed verdict (checked with the
+//! reference matcher R, or by re-running the implementation on the rewritten schema).
+//! Anything else stays an unattributed VIOLATION. Ids must be listed with status
+//! "open" in /verif/known_findings.jsonl to suppress anything.
+use crate::c01::{ref_json, Case};
+use crate::refmodel::*;
+use crate::terms::*;
+use crate::verdicts::*;
 
-pub fn classify_json(_c: &Case) -> Option<String> {
-  None
+pub const F_CHOICE: &str = "C01-map-group-choice-commits-to-nullable-alternative";
+pub const F_MIN2: &str = "C01-map-single-key-member-min-occurrence-above-one-accepted";
+pub const F_GREEDY: &str = "C01-map-type-keyed-member-greedily-takes-key-of-later-member";
+
+fn grule<'a>(s: &'a Schema, n: &str) -> Option<&'a Entry> {
+  s.0.iter().find_map(|r| match &r.body {
+    Body::Group(e) if r.name == n && r.params.is_empty() => Some(e),
+    _ => None,
+  })
+}
+
+fn occ_nullable(o: &Occ) -> bool {
+  matches!(o, Occ::Opt | Occ::Star | Occ::Range(None, _) | Occ::Range(Some(0), _))
+}
+fn entry_nullable(s: &Schema, e: &Entry, d: usize) -> bool {
+  if occ_nullable(&e.occ) {
+    return true;
+  }
+  if d > 8 {
+    return false;
+  }
+  match &e.kind {
+    EK::Val(..) => false,
+    EK::Inline(g) => g.0.iter().any(|c| choice_nullable(s, c, d + 1)),
+    EK::Ref(n, _) => grule(s, n).is_some_and(|e| entry_nullable(s, e, d + 1)),
+  }
+}
+fn choice_nullable(s: &Schema, c: &[Entry], d: usize) -> bool {
+  c.iter().all(|e| entry_nullable(s, e, d))
+}
+
+/// the entry can consume at most one member of any map: every key it offers is a
+/// single value (bareword / literal key), directly or through group references
+fn single_keyed(s: &Schema, e: &Entry, d: usize) -> bool {
+  if d > 8 {
+    return false;
+  }
+  match &e.kind {
+    EK::Val(Some(Key::Bare(_)), _) | EK::Val(Some(Key::LitColon(_)), _) => true,
+    EK::Val(Some(Key::Arrow(k, _)), _) => k.op.is_none() && matches!(k.t2, T2::Lit(_)),
+    EK::Val(None, _) => false,
+    EK::Inline(g) => g.0.len() == 1 && g.0[0].len() == 1 && single_keyed(s, &g.0[0][0], d + 1),
+    EK::Ref(n, a) => a.is_empty() && grule(s, n).is_some_and(|e| single_keyed(s, e, d + 1)),
+  }
+}
+
+/// generic bottom-up rewriting of the groups that sit (directly or through inline
+/// groups) inside map types; `f` gets each such group and reports whether it changed it
+fn rw_ty(t: &mut Ty, in_map: bool, f: &mut dyn FnMut(&mut Grp) -> bool) -> bool {
+  let mut ch = false;
+  for t1 in t.0.iter_mut() {
+    ch |= rw_t2(&mut t1.t2, in_map, f);
+  }
+  ch
+}
+fn rw_t2(t: &mut T2, _in_map: bool, f: &mut dyn FnMut(&mut Grp) -> bool) -> bool {
+  match t {
+    T2::Paren(t) | T2::Tag(_, t) => rw_ty(t, false, f),
+    T2::Map(g) => rw_grp(g, true, f),
+    T2::Arr(g) => rw_grp(g, false, f),
+    _ => false,
+  }
+}
+fn rw_grp(g: &mut Grp, in_map: bool, f: &mut dyn FnMut(&mut Grp) -> bool) -> bool {
+  let mut ch = false;
+  for c in g.0.iter_mut() {
+    for e in c.iter_mut() {
+      match &mut e.kind {
+        EK::Val(_, t) => ch |= rw_ty(t, false, f),
+        EK::Inline(g2) => ch |= rw_grp(g2, in_map, f),
+        EK::Ref(..) => {}
+      }
+    }
+  }
+  if in_map {
+    ch |= f(g);
+  }
+  ch
+}
+fn rewrite(s: &Schema, f: &mut dyn FnMut(&mut Grp) -> bool) -> Option<Schema> {
+  let mut s2 = s.clone();
+  let mut ch = false;
+  for r in s2.0.iter_mut() {
+    if let Body::Type(t) = &mut r.body {
+      ch |= rw_ty(t, false, f);
+    }
+  }
+  if ch {
+    Some(s2)
+  } else {
+    None
+  }
+}
+
+pub fn classify_json(c: &Case) -> Option<String> {
+  let s = c.schema;
+  match (c.expected, c.got) {
+    (Tri::Acc, Obs::Invalid) => {
+      // F_CHOICE: the validator commits to the first alternative of a map's group choice
+      // that raises no error - before the closed-map check - so alternatives after one
+      // that can match the empty map are never tried. Mimic: drop them; R must then reject.
+      if let Some(s2) = rewrite(s, &mut |g: &mut Grp| {
+        if g.0.len() >= 2 {
+          if let Some(i) = (0..g.0.len() - 1).find(|&i| choice_nullable(s, &g.0[i], 0)) {
+            g.0.truncate(i + 1);
+            return true;
+          }
+        }
+        false
+      }) {
+        if ref_json(&Model::new(&s2), c.doc).0 == Tri::Rej {
+          return Some(F_CHOICE.into());
+        }
+      }
+      // F_GREEDY: a member whose key is a type (`tstr => T`, no occurrence or `?`) takes
+      // the first not-yet-consumed key of the object, also when a later member of the
+      // same group names that key. Mimic: the defect disappears when every such member is
+      // moved behind the members with specific keys; the implementation itself must then
+      // accept the document.
+      if let Some(s2) = rewrite(s, &mut |g: &mut Grp| {
+        let mut ch = false;
+        for ch_ in g.0.iter_mut() {
+          let wild = |e: &Entry| {
+            matches!(e.occ, Occ::One | Occ::Opt)
+              && matches!(&e.kind, EK::Val(Some(Key::Arrow(k, _)), _) if !(k.op.is_none() && matches!(k.t2, T2::Lit(_))))
+          };
+          if let Some(i) = ch_.iter().position(|e| wild(e)) {
+            if ch_[i + 1..].iter().any(|e| !wild(e)) {
+              let (w, mut rest): (Vec<Entry>, Vec<Entry>) = ch_.drain(..).partition(|e| wild(e));
+              rest.extend(w);
+              *ch_ = rest;
+              ch = true;
+            }
+          }
+        }
+        ch
+      }) {
+        if json_str(&s2.render(), &crate::docs::to_json_text(c.doc)) == Obs::Ok {
+          return Some(F_GREEDY.into());
+        }
+      }
+      None
+    }
+    (Tri::Rej, Obs::Ok) => {
+      // F_MIN2: a member that can occur at most once in any map (single-valued key) with a
+      // lower occurrence bound >= 2 is unsatisfiable, but the validator is content with one
+      // occurrence. Mimic: lower the bound to 1; R must then no longer reject (accept, or
+      // don't-care where the rest of the group is outside the judged fragment, e.g. the
+      // keyless group in `{2* gk, gs}` - R only rejected because of the unsatisfiable bound).
+      if let Some(s2) = rewrite(s, &mut |g: &mut Grp| {
+        let mut ch = false;
+        for c in g.0.iter_mut() {
+          for e in c.iter_mut() {
+            if let Occ::Range(Some(n), hi) = e.occ.clone() {
+              if n >= 2 && single_keyed(s, e, 0) {
+                e.occ = Occ::Range(Some(1), hi);
+                ch = true;
+              }
+            }
+          }
+        }
+        ch
+      }) {
+        if ref_json(&Model::new(&s2), c.doc).0 != Tri::Rej {
+          return Some(F_MIN2.into());
+        }
+      }
+      None
+    }
+    _ => None,
+  }
 }
